@@ -564,15 +564,13 @@ impl<W: Write> RdbWriter<W> {
                 self.write_string(key)?;
                 
                 // Get all items and write them
-                let len = skiplist.len();
-                self.write_length(len)?;
                 #[cfg(feature = "verif")]
                 crate::verif::yield_point(crate::verif::site::RDB_SHARED_VALUE, 0, 0);
                 
-                // Note: This is a suboptimal approach since we need to materialize
-                // all members in memory. A better approach would be to have a streaming
-                // iterator in the SkipList implementation.
-                let items = skiplist.range_by_rank(0, len - 1).items;
+                // Read the members once and derive the count from what was read: the declared
+                // count and the members written must agree even if the set is changed meanwhile
+                let items = skiplist.get_all_items();
+                self.write_length(items.len())?;
                 
                 for (member, score) in items {
                     self.write_string(&member)?;
